@@ -38,7 +38,7 @@ def run(tier):
     rep.assumptions = ["integer datasets and integer kernels (linear on integer data, precomputed symmetric indefinite matrix) so "
                        "that every logged gain is an exact multiple of 1/lcm(1..n); the recorder wraps the module attribute "
                        "gemclus.tree.kauri.find_best_split (no source hook)",
-                       "steps only explained by the known C08 double-star defect are taken through named deviation actions and "
+                       "steps only explained by the known C08 defects of the compiled search (double-star gain, second-best reallocation target) are taken through named deviation actions and "
                        "counted; they are reported under C08, the structural clauses are still checked after them"]
     return rep.finish()
 
